@@ -81,7 +81,7 @@ func originOf(s string) string {
 	s = strings.ReplaceAll(s, "\\", "/")
 	u, err := url.Parse(s)
 	if err != nil {
-		return "error:" + err.Error()
+		return "error:unparsable"
 	}
 	r := base.ResolveReference(u)
 	return r.Scheme + "://" + r.Host
@@ -377,7 +377,8 @@ type Piece struct {
 
 var urlPositions = [][2]string{{"a", "href"}, {"area", "href"}, {"img", "src"}, {"form", "action"}, {"button", "formaction"}, {"input", "formaction"}, {"img", "srcset"}, {"source", "srcset"}, {"video", "src"}, {"audio", "src"}, {"link", "href"}, {"input", "src"}}
 
-var jsSpellings = []string{"javascript:alert(1)", "JAVASCRIPT:alert(1)", "JaVaScRiPt:alert(1)", "java\tscript:alert(1)", "java\nscript:alert(1)", "jav\rascript:alert(1)", " javascript:alert(1)", "\x01javascript:alert(1)", "\x1f \x00javascript:alert(1)", "javascript\t:alert(1)", "javascript:", "&#106;avascript:alert(1)", "javascript&colon;alert(1)", "jav&#x61;script:alert(1)", "java&Tab;script:alert(1)", "javascript&#58;alert(1)", "&#x6A;&#x61;&#x76;&#x61;&#x73;&#x63;&#x72;&#x69;&#x70;&#x74;&#x3A;alert(1)"}
+var jsSpellings = []string{"/x\f,javascript:alert(1)", "/x ,javascript:alert(1)", "/x\t,javascript:alert(1) 2x", "a.png 1x,\njavascript:alert(1)", "a.png\f1x\f,\fjavascript:alert(1)", "/x\r,javascript:alert(1)", "/x\v,javascript:alert(1)",
+	"javascript:alert(1)", "JAVASCRIPT:alert(1)", "JaVaScRiPt:alert(1)", "java\tscript:alert(1)", "java\nscript:alert(1)", "jav\rascript:alert(1)", " javascript:alert(1)", "\x01javascript:alert(1)", "\x1f \x00javascript:alert(1)", "javascript\t:alert(1)", "javascript:", "&#106;avascript:alert(1)", "javascript&colon;alert(1)", "jav&#x61;script:alert(1)", "java&Tab;script:alert(1)", "javascript&#58;alert(1)", "&#x6A;&#x61;&#x76;&#x61;&#x73;&#x63;&#x72;&#x69;&#x70;&#x74;&#x3A;alert(1)"}
 
 func genScheme(t *rapid.T) SchemeCase {
 	pos := rapid.SampledFrom(urlPositions).Draw(t, "pos")
@@ -545,6 +546,14 @@ func checkScheme(c SchemeCase) evid.Outcome {
 		if !p.Static && (whaturl.IsJavascript(s) || whaturl.IsJavascript(html.UnescapeString(s))) {
 			single = true
 		}
+		if !p.Static && c.Attr == "srcset" {
+			// a single untrusted piece that is by itself a candidate list with a javascript: candidate
+			for _, cd := range srcset.Parse(s) {
+				if whaturl.IsJavascript(cd.URL) || whaturl.IsJavascript(html.UnescapeString(cd.URL)) {
+					single = true
+				}
+			}
+		}
 	}
 	if firstDyn && !single {
 		v.Finding = "K-adjacent"
@@ -562,6 +571,95 @@ func checkScheme(c SchemeCase) evid.Outcome {
 	return v
 }
 
+// ---------- sub-property "origin": untrusted data never changes the origin of a code-loading URL ----------
+
+type OriginCase struct {
+	Shape  string    `json:"shape"` // code-loading element with the URL hole @@ (value is PREFIX + data)
+	Quote  string    `json:"quote"`
+	Prefix evid.BStr `json:"prefix"` // static prefix
+	Data   evid.BStr `json:"data"`   // untrusted continuation (no markers: it may start with a digit or a hex letter)
+}
+
+var originShapes = []string{`<script src=Q@@Q></script>`, `<iframe src=Q@@Q></iframe>`, `<link rel="stylesheet" href=Q@@Q>`, `<frame src=Q@@Q>`, `<embed src=Q@@Q>`, `<object data=Q@@Q></object>`, `<base href=Q@@Q>`, `<SCRIPT SRC=Q@@Q></SCRIPT>`}
+var originBases = []string{"https://good.example", "//good.example", "https://good.example/", "//good.example/", "/", "/s", "/s/", "", "https://", "//", "https://good.example:443", "https://good.example/a/", "about:blank#", "https:", "http://good.example/", "HTTPS://good.example"}
+var originConts = []string{"0.evil.example", "47.evil.example", ".evil.example/x.js", "@evil.example/x.js", ":443@evil.example/", "/evil.example/x.js", "//evil.example/x.js", "\\evil.example/x.js", "\\\\evil.example", "evil.example", "x.js", "a/b.js", "?x=1", "#f", "../x.js", "..", "%2f%2fevil.example", "f;.evil.example", "2f.evil.example", ";.evil.example", "/", "javascript:alert(1)", " //evil.example", "\t//evil.example", "https://evil.example/x.js"}
+var slashRefs = strs.AllCharRefSpellings("/:@.\\?#")
+
+func genOrigin(t *rapid.T) OriginCase {
+	c := OriginCase{Shape: rapid.SampledFrom(originShapes).Draw(t, "shape"), Quote: rapid.SampledFrom([]string{`"`, `'`}).Draw(t, "quote")}
+	p := rapid.SampledFrom(originBases).Draw(t, "base")
+	n := rapid.IntRange(0, 2).Draw(t, "nref")
+	for i := 0; i < n; i++ {
+		if rapid.Bool().Draw(t, "ref") {
+			p += rapid.SampledFrom(slashRefs).Draw(t, "refpiece")
+		} else {
+			p += rapid.SampledFrom([]string{"/", "a", ".", "s/", "%2f", "?", "#", "@", ":", "\\"}).Draw(t, "lit")
+		}
+	}
+	c.Prefix = evid.BStr(p)
+	if rapid.IntRange(0, 3).Draw(t, "hostiledata") == 0 {
+		c.Data = evid.BStr(strs.Hostile(3, originConts).Draw(t, "data"))
+	} else {
+		c.Data = evid.BStr(rapid.SampledFrom(originConts).Draw(t, "data"))
+	}
+	return c
+}
+
+func (c OriginCase) run(data string) (string, error, string) {
+	text := strings.ReplaceAll(strings.ReplaceAll(c.Shape, "Q", c.Quote), "@@", strings.ReplaceAll(string(c.Prefix), c.Quote, "")+"{{.V}}")
+	t, perr := tx.Parse(text)
+	if perr != nil {
+		return "", perr, text
+	}
+	out, err := tx.Exec(t, map[string]interface{}{"V": data})
+	return out, err, text
+}
+
+func codeURL(out string) (string, bool) {
+	r := htmltok.Tokenize([]byte(out), htmltok.Options{})
+	for _, t := range r.Tokens {
+		if t.Kind != htmltok.StartTag {
+			continue
+		}
+		for _, a := range t.Attrs {
+			if !a.Dropped && codeLoading(t.Name, a.Name, t.Attrs) {
+				return a.Value, true
+			}
+		}
+	}
+	return "", false
+}
+
+func checkOrigin(c OriginCase) evid.Outcome {
+	o := evid.Outcome{}
+	out, err, text := c.run(string(c.Data))
+	if err != nil {
+		o.Labels = append(o.Labels, "refused")
+		o.NonTrivial = true
+		return o
+	}
+	iout, ierr, _ := c.run("zq")
+	if ierr != nil {
+		o.Skip = true
+		return o
+	}
+	v, ok1 := codeURL(out)
+	iv, ok2 := codeURL(iout)
+	if !ok1 || !ok2 {
+		return evid.Viol("code-loading attribute lost: template %q data %q output %q", text, c.Data, out)
+	}
+	o.Labels = append(o.Labels, "accepted")
+	o.NonTrivial = true
+	if og, oi := originOf(v), originOf(iv); og != oi {
+		return evid.Viol("untrusted data changed the origin of a code-loading URL: template %q\ndata %q -> value %q origin %s\ndata \"zq\" -> value %q origin %s", text, c.Data, v, og, iv, oi)
+	}
+	if whaturl.IsJavascript(v) {
+		return evid.Viol("code-loading URL became a javascript: URL: template %q data %q value %q", text, c.Data, v)
+	}
+	return o
+}
+
+func TestPropOrigin(t *testing.T)   { evid.RunProp(t, "origin", 0.5, genOrigin, checkOrigin) }
 func TestPropLocation(t *testing.T) { evid.RunProp(t, "location", 1, genLoc, checkLoc) }
 func TestPropCode(t *testing.T)     { evid.RunProp(t, "code", 0.5, genCode, checkCode) }
 func TestPropScheme(t *testing.T)   { evid.RunProp(t, "scheme", 0.7, genScheme, checkScheme) }
@@ -595,5 +693,5 @@ func TestPropCodeAll(t *testing.T) {
 }
 
 func TestReplay(t *testing.T) {
-	evid.Replay(t, evid.R("location", checkLoc), evid.R("code", checkCode), evid.R("codeall", checkCode), evid.R("scheme", checkScheme))
+	evid.Replay(t, evid.R("location", checkLoc), evid.R("code", checkCode), evid.R("codeall", checkCode), evid.R("scheme", checkScheme), evid.R("origin", checkOrigin))
 }
